@@ -127,3 +127,13 @@ package secure
 //@   ensures[unmarked-untouched] !parked ==> result == nil && im.body == old(im.body) && ghost.unmarshals == old(ghost.unmarshals)
 //@   ensures[other-key-rejected] parked && (enc == nil || old(enc.Cipherversion) != e.version) ==> !statOK(result) && ghost.unmarshals == old(ghost.unmarshals)
 //@   ensures[restored] parked && statOK(result) ==> im.body == old(sw.#gvals[iface(type(swapKey), encrypt_rawbody)]) && !sw.#gkeys[iface(type(swapKey), encrypt_rawbody)] && ghost.unmarshals == old(ghost.unmarshals) + 1 && ghost.lastUnmarshal == aesDec(base(e.cipherkey), bytesOfStr(old(enc.Ciphertext)))
+
+// ---- C01: the decoded envelope owns its strings ------------------------------------
+// (generated protobuf code: the two string fields are assigned converted copies of
+// the input, never zero-copy views of the receive buffer)
+//@ func (*Encrypt).Unmarshal
+//@   property C01
+//@   flags libframe
+//@   requires !zeroCopy(m.Cipherversion) && !zeroCopy(m.Ciphertext)
+//@   ensures[envelope-owns-its-strings] !zeroCopy(m.Cipherversion) && !zeroCopy(m.Ciphertext)
+//@   loop 0: invariant[owns-its-strings] !zeroCopy(m.Cipherversion) && !zeroCopy(m.Ciphertext)
